@@ -30,6 +30,11 @@ def accounting_ok(w, obs):
         if t is not cur_t:
             return False
     # every connection that is still open is the tracked one (or the one the FSM's protocol uses)
+    if w.state in (S.IDLE, S.CONNECT):
+        # no session is up, so no connection may be left open (one that is being closed does not count)
+        for c in live:
+            if c.state == 'connected':
+                return False
     for c in live:
         if c.state == 'connecting':
             if c is not tracked:
@@ -48,9 +53,13 @@ def ob_step(a: int, b: int, c: int, hold: int) -> bool:
             assume(hold > 0)
     else:
         hold = None
-    w = S.in_state(state, dict(P.get('cfg', {})), hold=hold, closing=P.get('closing', False))
+    w = S.in_state(state, dict(P.get('cfg', {})), hold=hold, closing=P.get('closing', False),
+                   old_closing=P.get('old_closing', False), pending_attempt=P.get('pending_attempt', False))
     mark = w.mark()
-    SC.inject(w, ev, a, b, c)
+    if ev == 'close_done_old':
+        w.old_connector.world_connection_lost()
+    else:
+        SC.inject(w, ev, a, b, c)
     obs = SC.observe(w, mark)
     cover('stepped')
     return accounting_ok(w, obs)
@@ -75,6 +84,18 @@ def obligations(tier, seed):
                           covers=['stepped'], cap=120))
     out.append(ob('C12/step/IDLE/close_done', 'ob_step', {'state': S.IDLE, 'ev': 'close_done', 'closing': True},
                   covers=['stepped']))
+    # the previous connection is still finishing its close (stop / start overtook it)
+    for state in (S.CONNECT, S.OPENSENT, S.OPENCONFIRM, S.ESTABLISHED):
+        evs = ['close_done_old'] + [e for e in SC.EVENTS_BY_STATE[state]
+                                    if not quick or e in ('tcp_ok', 'tcp_fail', 'crt', 'open_ok', 'ka', 'notif', 'holdt',
+                                                          'peer_close', 'manual_stop', 'manual_start', 'hdr_type')]
+        for ev in evs:
+            out.append(ob('C12/step-old-closing/%s/%s' % (S.STATE_NAMES[state], ev), 'ob_step',
+                          {'state': state, 'ev': ev, 'old_closing': True}, covers=['stepped'], cap=120))
+    # Idle with an attempt still pending (the old connection closed late, after stop/start)
+    for ev in ('start_idlehold', 'manual_start', 'tcp_ok', 'tcp_fail', 'manual_stop'):
+        out.append(ob('C12/step-idle-pending-attempt/%s' % ev, 'ob_step',
+                      {'state': S.IDLE, 'ev': ev, 'pending_attempt': True}, covers=['stepped'], cap=120))
     for crt in ([30] if quick else [10, 30, 60]):
         k = 4 if quick else 5
         for first_ev in ('tcp_ok', 'tcp_fail', 'timer:connect_retry', 'manual_stop', 'manual_start'):
